@@ -55,7 +55,8 @@ type toyState struct {
 	// the last round's messages carry a digest of the sender's view of everything before; it is NOT
 	// checked when the message is verified but when the round is finalized, which then ends in an
 	// identifiable-abort round naming the senders whose digest differs (the path cmp sign round 5 takes)
-	views map[party.ID][]byte
+	views  map[party.ID][]byte
+	digest bool // the last round carries and compares view digests (off in the equivocation worlds: it would detect by itself what the echo mechanism is there to detect)
 }
 
 func toyTag(kind string, r int, v []byte, to party.ID) []byte {
@@ -237,7 +238,7 @@ func (r *toyRound) Finalize(out chan<- *round.Message) (round.Session, error) {
 			}
 		}
 	}
-	if r.n >= 2 && r.n == len(r.st.shapes)+1 && len(r.st.shapes) >= 2 {
+	if r.n >= 2 && r.n == len(r.st.shapes)+1 && r.st.digest && len(r.st.shapes) >= 2 {
 		// (with a single message round the senders' values are only just being revealed: no view to compare)
 		mine := r.viewDigest()
 		var culprits []party.ID
@@ -289,7 +290,7 @@ func (r *toyRound) Finalize(out chan<- *round.Message) (round.Session, error) {
 		}
 		r.st.nonces[next][r.SelfID()] = w
 		var tv []byte
-		if next == len(r.st.shapes)+1 && len(r.st.shapes) >= 2 {
+		if next == len(r.st.shapes)+1 && r.st.digest && len(r.st.shapes) >= 2 {
 			tv = r.viewDigest()
 		}
 		var content round.Content
@@ -309,7 +310,7 @@ func (r *toyRound) Finalize(out chan<- *round.Message) (round.Session, error) {
 				v = r.st.own
 			}
 			var tv []byte
-			if next == len(r.st.shapes)+1 && len(r.st.shapes) >= 2 && !sh.Bcast {
+			if next == len(r.st.shapes)+1 && r.st.digest && len(r.st.shapes) >= 2 && !sh.Bcast {
 				tv = r.viewDigest()
 			}
 			if err := r.SendMessage(out, &toyP{V: v, T: tv, n: round.Number(next)}, j); err != nil {
@@ -325,7 +326,7 @@ func (r *toyRound) Finalize(out chan<- *round.Message) (round.Session, error) {
 }
 
 // StartToy is the start function of the toy protocol.
-func StartToy(selfID party.ID, ids []party.ID, shapes []ToyShape) protocol.StartFunc {
+func StartToy(selfID party.ID, ids []party.ID, shapes []ToyShape, digest bool) protocol.StartFunc {
 	return func(sessionID []byte) (round.Session, error) {
 		info := round.Info{
 			ProtocolID:       "verif/toy",
@@ -337,18 +338,18 @@ func StartToy(selfID party.ID, ids []party.ID, shapes []ToyShape) protocol.Start
 		if err != nil {
 			return nil, err
 		}
-		st := &toyState{shapes: shapes, vals: map[party.ID][]byte{}, gotB: map[int]map[party.ID]bool{}, gotP: map[int]map[party.ID]bool{}, nonces: map[int]map[party.ID][]byte{}, views: map[party.ID][]byte{}}
+		st := &toyState{shapes: shapes, digest: digest, vals: map[party.ID][]byte{}, gotB: map[int]map[party.ID]bool{}, gotP: map[int]map[party.ID]bool{}, nonces: map[int]map[party.ID][]byte{}, views: map[party.ID][]byte{}}
 		return &toyRound{Helper: helper, n: 1, st: st}, nil
 	}
 }
 
 // ToyMk returns the handler constructors of one toy session.
-func ToyMk(ids []party.ID, shapes []ToyShape, sid []byte) map[party.ID]Mk {
+func ToyMk(ids []party.ID, shapes []ToyShape, sid []byte, digest bool) map[party.ID]Mk {
 	out := map[party.ID]Mk{}
 	for _, id := range ids {
 		id := id
 		out[id] = func() (protocol.Handler, error) {
-			return protocol.NewMultiHandler(StartToy(id, ids, shapes), sid)
+			return protocol.NewMultiHandler(StartToy(id, ids, shapes, digest), sid)
 		}
 	}
 	return out
